@@ -36,6 +36,7 @@ RULE = ('one evaluation = one simulated run: a victim client performs a short se
         'holder obtained the lock during the call; distinct = SHA-256 of the seam event log')
 RULE += ' ' + "In one case in seven (Cache / FanoutCache / DjangoCache targets with an evicting policy) the size limit is put at the present volume before the call, so the call's write also evicts (cull_limit 1-2)."
 RULE += ' ' + 'A lookup under a recency / frequency policy that is answered as in the baseline must also be recorded as in the baseline (access count, access time).'
+RULE += ' ' + 'DjangoCache targets also call get_many and has_key; a lookup that needs no write is flagged when it takes as long as the lock is held.'
 ASSUMPTIONS = ['the holder is a raw connection holding BEGIN IMMEDIATE (what a long transaction, check() or a slow writer in another process looks like)',
                'SQLite busy timeout is emulated event-driven in virtual time']
 PROBES = ('lock_taken', 'timeout_raised', 'failure_value', 'retry_waited', 'lock_before_begin_after_file', 'lockfree_lookup_under_lock',
@@ -213,6 +214,8 @@ def gen_target_op(rng, target, keys, big_n, bulk):
              'clear', 'evict', 'expire', 'cull', 'setitem', 'getitem', 'delitem', 'read']
     if target in ('cache', 'fanout'):
         names += ['check']
+    if target == 'django':
+        names += ['get_many', 'get_many', 'has_key']      # the contract's other lookups
     if target == 'cache':
         names += ['push', 'pull', 'peek', 'peekitem', 'volume']
     name = rng.choice(names)
@@ -223,6 +226,10 @@ def gen_target_op(rng, target, keys, big_n, bulk):
         op['k'] = 'n' if name in ('incr', 'decr') else k
     if name == 'evict':
         op['tag'] = 't1'
+    if name == 'get_many':
+        op['ks'] = ['a', 'b', 'n']
+    if name == 'has_key':
+        op['k'] = k
     if name in ('get', 'pop') and rng.random() < 0.5:
         op['default'] = 'dflt'
     if name == 'push':
@@ -391,6 +398,7 @@ def _run(case):
     res = {'result': target_rec['res'] if target_rec else None, 'snaps': snaps, 'final': out.get('final'),
            'seams': target_rec.get('seams') if target_rec else 0, 'sql': target_rec.get('sql') if target_rec else 0,
            'locked': bool(out['fired'].get('lock')),
+           'elapsed': (target_rec.get('t_ret', 0) - target_rec.get('t_inv', 0)) if target_rec and target_rec.get('t_ret') is not None else None,
            'lock_at': state.get('lock_at')}
     for problems, empties, info in out.get('audits', []):
         problems = [p for p in problems if not (p[0] == 'file-unknown' and p[1] == 'stray.bin')]      # the check victim's own setup
@@ -454,7 +462,7 @@ def judge(case, base, run, violations, probes):
     brows_a, bfiles_a = data_rows(b['snaps'][1])
     unchanged = rows_a == rows_b and files_a == files_b
     same_as_baseline = res == bres and rows_a == brows_a and [len(f) for f in files_a] == [len(f) for f in bfiles_a]
-    if name in ('get', 'getitem', 'read') and kind in ('cache', 'fanout', 'django') and _get_writes(cfg):
+    if name in ('get', 'getitem', 'read', 'get_many') and kind in ('cache', 'fanout', 'django') and _get_writes(cfg):
         # a lookup that records the use of the item (recency / frequency policies): answered as in the baseline means
         # recorded as in the baseline - a lookup that could not get the lock is no use of the item (C09)
         # (the access time is read after the wait for the lock: it may be later than in the baseline, never earlier)
@@ -528,6 +536,12 @@ def judge(case, base, run, violations, probes):
         else:
             probes['timeout_raised'] = 1
         return
+    lockfree = name in LOCKFREE or name == 'has_key' or (name in ('get', 'getitem', 'read', 'get_many') and not _get_writes(cfg))
+    if lockfree and long_hold and d.get('elapsed') is not None and d['elapsed'] >= 0.9 * cfg['dur'] and cfg['dur'] > 0:
+        # a lookup that needs no write keeps working while somebody else holds the write lock: it does not wait for the release
+        violations.append({'rule': 'C14/lock-free-lookup-waited', 'sig': '%s.%s' % (kind, name),
+                           'detail': 'the call took %.3f virtual s, the lock was held for %.3f s; %s' % (d['elapsed'], cfg['dur'], desc)})
+        return
     if same_as_baseline:
         if retry and long_hold:
             probes['retry_waited'] = 1
@@ -535,7 +549,7 @@ def judge(case, base, run, violations, probes):
             probes['lockfree_lookup_under_lock'] = 1
         return
     # not the baseline outcome: it must be a clean failure
-    if name in LOCKFREE or (name in ('get', 'getitem', 'read') and not _get_writes(cfg)):
+    if lockfree:
         if res != bres:
             violations.append({'rule': 'C14/lock-free-lookup-affected', 'sig': '%s.%s' % (kind, name), 'detail': desc})
         return
